@@ -135,6 +135,16 @@ class Pair:
             src = self.ep(action[2])
             if src.controller.ike_sas:
                 sim.forced_urandom.append((action[1], bytes(src.controller.ike_sas[0].my_spi)))
+        elif kind == 'flood':
+            # n IKE_SA_INIT requests (copies of the first one ever sent, with other initiator SPIs) to endpoint action[1]:
+            # half-open IKE_SAs, so that the next IKE_SA_INIT request is asked for a cookie
+            ep = self.ep(action[1])
+            first = next((h for h in self.history if h[2][18] == 34 and not (h[2][19] & 0x20)), None)
+            if first is not None:
+                src, dst, data = first
+                for k in range(action[2]):
+                    sent += ep.datagram(dst, src, bytes([0xF0, k + 1] * 4) + data[8:])
+                sent = []       # the answers to the flood are not part of the legitimate flow
         elif kind == 'kfail_newsa':
             ep = self.ep(action[1])
             ep.kernel.fail_newsa.add(ep.kernel.n_newsa + action[2])
@@ -199,6 +209,7 @@ def scripted(name):
                                             D, D, D, D],
         'postponed_rekey_then_child': HANDSHAKE + [['rekey_ike', 'A'], ['rekey_ike', 'B'], D, D, D, D,
                                                    ['acquire', 'A', 81], D, D, D, D, ['expire', 'B', 0, 0], D, D, D, D, D, D],
+        'cookie_handshake': [['acquire', 'A', 80], ['flood', 'B', 11], D, D, D, D, D, D],
         'crossing_children': HANDSHAKE + [['acquire', 'A', 81], ['acquire', 'B', 0], D, D, D, D],
         # the successor's peer SPI equals the local SPI of the IKE_SA being replaced; a request on the successor
         # arrives while the old IKE_SA is still listed
@@ -218,7 +229,7 @@ SCRIPTED = ['handshake', 'new_child', 'new_child_from_responder', 'rekey_child',
 # scripted histories that need something special (forced SPI collisions, a postponed IKE_SA rekey): used by the
 # handler correspondence and by individual oracles, not by the generic plans
 SPECIAL = ['spi_collision_out', 'spi_collision_in', 'spi_collision_rekey', 'postponed_rekey_then_child', 'ike_spi_reuse',
-           'crossing_children']
+           'crossing_children', 'cookie_handshake']
 
 
 def random_walk(rng, n, handshake=True, weights=None):
